@@ -14,7 +14,7 @@ from edgegraph.structure import Vertex  # noqa: E402
 from edgegraph.traversal import helpers  # noqa: E402
 
 GEN = os.path.join(os.path.dirname(HERE), "lean", "EG", "Generated")
-CLASSES = ["D", "U", "DD", "UU", "X"]
+CLASSES = ["D", "U", "DD", "UU", "X", "DU"]
 ERR = {TypeError: ".type", IndexError: ".index", AttributeError: ".attribute", ValueError: ".value",
        NotImplementedError: ".notImpl", KeyError: ".key", AssertionError: ".assertion",
        RecursionError: ".recursion"}
